@@ -91,6 +91,9 @@ pub enum TopOp
     EntCmdSyscallV(u32, bool),
     /// mutate the plain resource the ordinary system watches through Bevy change detection
     Touch,
+    /// spawn an entity carrying `QMark` plus an extra component picked by `.0`: the first of each kind creates a new
+    /// archetype, which a cached system's `Query` must see at its next call
+    SpawnMarked(u8),
 }
 
 #[derive(Debug, Clone, PartialEq, Eq, Hash, Serialize, Deserialize, Default)]
@@ -108,7 +111,16 @@ pub struct Out
     nested: Vec<Result<Out, ()>>,
     /// `Res<Probe>::is_changed()` as seen by the ordinary system `sys_n` (None for the exclusive ones)
     changed: Option<bool>,
+    /// number of `QMark` entities the ordinary systems see through a `Query` (None for the exclusive ones)
+    marked: Option<u32>,
 }
+
+/// Marker component counted through a `Query` by the ordinary systems; the entities carrying it are spread over several
+/// archetypes that come into existence between calls.
+#[derive(Component)]
+struct QMark;
+#[derive(Component)]
+struct QExtra<const K: u8>;
 
 /// Plain resource watched through Bevy change detection by `sys_n`.
 #[derive(Resource, Default)]
@@ -136,6 +148,7 @@ struct ExpOut
     nested: Vec<Result<ExpOut, ()>>,
     /// None: unconstrained
     changed: Option<bool>,
+    marked: Option<u32>,
 }
 
 #[derive(Debug, Clone, PartialEq, Eq)]
@@ -157,6 +170,7 @@ fn out_matches(got: &Result<Out, ()>, want: &Result<ExpOut, ()>) -> bool
         (Ok(g), Ok(w)) =>
             g.f == w.f && g.x == w.x && w.count.map(|c| c == g.count).unwrap_or(true) && g.nested.len() == w.nested.len()
                 && (w.changed.is_none() || g.changed.is_none() || w.changed == g.changed)
+                && (w.marked.is_none() || g.marked.is_none() || w.marked == g.marked)
                 && g.nested.iter().zip(w.nested.iter()).all(|(a, b)| out_matches(a, b)),
         _ => false,
     }
@@ -257,7 +271,7 @@ fn sys_a(In(plan): In<CallSpec>, world: &mut World, mut local: Local<u32>) -> Ou
     let nested = plan.nested.iter().map(|n| perform(world, n)).collect();
     if let Some(k) = plan.kill { kill_slot(world, k); }
     queue_effects(world, F::A, &plan, count);
-    Out{ f: F::A, x: plan.x, count, nested, changed: None }
+    Out{ f: F::A, x: plan.x, count, nested, changed: None, marked: None }
 }
 
 fn sys_b(In(plan): In<CallSpec>, world: &mut World, mut local: Local<u32>) -> Out
@@ -267,11 +281,11 @@ fn sys_b(In(plan): In<CallSpec>, world: &mut World, mut local: Local<u32>) -> Ou
     let nested = plan.nested.iter().map(|n| perform(world, n)).collect();
     if let Some(k) = plan.kill { kill_slot(world, k); }
     queue_effects(world, F::B, &plan, count);
-    Out{ f: F::B, x: plan.x, count, nested, changed: None }
+    Out{ f: F::B, x: plan.x, count, nested, changed: None, marked: None }
 }
 
 /// A normal (non-exclusive) system: it can only queue.
-fn sys_n(In(plan): In<CallSpec>, mut c: Commands, mut local: Local<u32>, probe: Res<Probe>) -> Out
+fn sys_n(In(plan): In<CallSpec>, mut c: Commands, mut local: Local<u32>, probe: Res<Probe>, marks: Query<&QMark>) -> Out
 {
     let changed = Some(probe.is_changed());
     *local += 1;
@@ -283,16 +297,16 @@ fn sys_n(In(plan): In<CallSpec>, mut c: Commands, mut local: Local<u32>, probe: 
     {
         c.queue(move |w: &mut World| { let r = perform(w, &q); effect(Effect::QueuedResult(r)); });
     }
-    Out{ f: F::N, x, count, nested: Vec::new(), changed }
+    Out{ f: F::N, x, count, nested: Vec::new(), changed, marked: Some(marks.iter().count() as u32) }
 }
 
 /// Like `sys_n`, but its only `Commands` is nested in a `ParamSet` (deferred work hidden from `System::has_deferred`).
-fn sys_p(In(plan): In<CallSpec>, mut ps: ParamSet<(Commands, Query<Entity>)>, mut local: Local<u32>) -> Out
+fn sys_p(In(plan): In<CallSpec>, mut ps: ParamSet<(Commands, Query<Entity, With<QMark>>)>, mut local: Local<u32>) -> Out
 {
     *local += 1;
     let count = *local;
     let x = plan.x;
-    let _ = ps.p1().iter().count();
+    let marked = ps.p1().iter().count() as u32;
     let mut c = ps.p0();
     c.queue(move |_w: &mut World| effect(Effect::Marker(F::P, x, count)));
     if let Some(k) = plan.kill { c.queue(move |w: &mut World| kill_slot(w, k)); }
@@ -300,7 +314,7 @@ fn sys_p(In(plan): In<CallSpec>, mut ps: ParamSet<(Commands, Query<Entity>)>, mu
     {
         c.queue(move |w: &mut World| { let r = perform(w, &q); effect(Effect::QueuedResult(r)); });
     }
-    Out{ f: F::P, x, count, nested: Vec::new(), changed: None }
+    Out{ f: F::P, x, count, nested: Vec::new(), changed: None, marked: Some(marked) }
 }
 
 fn unit_sys(In(x): In<u32>, mut local: Local<u32>)
@@ -352,6 +366,8 @@ struct Model
     unit_slots: Vec<u32>,
     /// number of `Touch` ops so far, and per key the number its system saw at its last run (absent: fresh state)
     touches: u64,
+    /// number of `QMark` entities spawned so far
+    marked: u32,
     seen: HashMap<Key, u64>,
     effects: Vec<ExpEffect>,
     classes: BTreeMap<String, u32>,
@@ -379,7 +395,7 @@ impl Model
                 self.effects.push(ExpEffect::QueuedResult(r));
             }
             // a fresh system: everything counts as changed
-            return Ok(ExpOut{ f, x: spec.x, count: Some(1), nested, changed: if f == F::N { Some(true) } else { None } });
+            return Ok(ExpOut{ f, x: spec.x, count: Some(1), nested, changed: if f == F::N { Some(true) } else { None }, marked: if f == F::N || f == F::P { Some(self.marked) } else { None } });
         }
         let (key, f) = match spec.target
         {
@@ -434,7 +450,7 @@ impl Model
             self.effects.push(ExpEffect::QueuedResult(r));
         }
         self.running.pop();
-        Ok(ExpOut{ f, x: spec.x, count, nested, changed })
+        Ok(ExpOut{ f, x: spec.x, count, nested, changed, marked: if f == F::N || f == F::P { Some(self.marked) } else { None } })
     }
 }
 
@@ -652,6 +668,18 @@ fn run_inner(case: &SysCase, out: &mut SysOutcome)
                 }
                 model.hit("C17:commands_with_validation");
             }
+            TopOp::SpawnMarked(kind) =>
+            {
+                match kind % 4
+                {
+                    0 => { world.spawn(QMark); }
+                    1 => { world.spawn((QMark, QExtra::<1>)); }
+                    2 => { world.spawn((QMark, QExtra::<2>)); }
+                    _ => { world.spawn((QMark, QExtra::<1>, QExtra::<2>)); }
+                }
+                model.marked += 1;
+                model.hit("C17:new_entity_for_the_queries");
+            }
             TopOp::Touch =>
             {
                 world.resource_mut::<Probe>().0 += 1;
@@ -775,9 +803,10 @@ pub fn decode(bytes: &[u8], max_ops: usize) -> SysCase
     let mut case = SysCase::default();
     for _ in 0..n
     {
-        let op = match d.below(24)
+        let op = match d.below(26)
         {
             21 | 22 => TopOp::Touch,
+            24 | 25 => TopOp::SpawnMarked(d.byte()),
             20 => { d.next_x += 1; TopOp::CmdSyscallV(d.next_x, d.byte() & 1 == 1) }
             23 => { d.next_x += 1; TopOp::EntCmdSyscallV(d.next_x, d.byte() & 1 == 1) }
             18 => { d.next_x += 1; TopOp::WorldUnitSyscall(d.next_x) }
